@@ -84,7 +84,7 @@ fn main() {
 		"c13probe" => c13_concurrent::probe(ctx.replay.as_deref().unwrap_or("")),
 		"pipe" | "c06" | "c08" | "c09" => pipeline::run(&ctx, &cmd),
 		// C02 / C03: pipeline operators (model-compared) + container readers (spec level)
-		"c02" | "c03" => (|| { let mut col = util::Collector::new(&ctx.out)?; pipeline::run_into(&ctx, &cmd, &mut col)?; formats::run_into(&ctx, &cmd, &mut col)?; if cmd == "c03" { c16::run_into(&ctx, &mut col, false)?; } col.finish() })(),
+		"c02" | "c03" => (|| { let mut col = util::Collector::new(&ctx.out)?; pipeline::run_into(&ctx, &cmd, &mut col)?; mvt::run_stream_vs_lookup(&ctx, &mut col)?; formats::run_into(&ctx, &cmd, &mut col)?; if cmd == "c03" { c16::run_into(&ctx, &mut col, false)?; } col.finish() })(),
 		"c01" => formats::run(&ctx, &cmd),
 		x => { eprintln!("unknown command {x}"); std::process::exit(2); }
 	};
